@@ -11,6 +11,15 @@
 #include "EbMalloc.h"
 #include "EbUtility.h"
 void svt_print_alloc_fail(const char *f, int l) { (void)f; (void)l; }
+/* Squaring is abstracted to an arbitrary function of the difference (a 511-entry table with arbitrary contents):
+ * the claim "SSE == sum over the visible samples of f(source - recon)" for EVERY f contains the claim for
+ * f(d) = d*d, and needs no multipliers in the solver query.  That SQR(x) is x*x is a separate one-line query. */
+static int64_t SQT[511];
+static int64_t sq_model(int64_t d) { V_ASSERT(d >= -255 && d <= 255, "8-bit sample difference in range"); return SQT[(d < -255 || d > 255) ? 0 : d + 255]; }
+#ifndef CHECK_SQR_MACRO
+#undef SQR
+#define SQR(x) sq_model((int64_t)(x))
+#endif
 #include "c26_psnr.inc"
 #ifndef VW
 #define VW 6
@@ -46,6 +55,7 @@ void harness(void) {
     V_ASSUME(scs && pcs && ppcs && ro && rw && in && rec);
     scs->static_config.encoder_bit_depth = 8; scs->subsampling_x = 1; scs->subsampling_y = 1;
     scs->max_input_pad_right = PW - VW; scs->max_input_pad_bottom = PH - VH;
+    for (int i = 0; i < 511; i++) SQT[i] = (int64_t)vin64();
     mk_desc(in); mk_desc(rec);
     pcs->parent_pcs_ptr = ppcs; ppcs->enhanced_unscaled_picture_ptr = in;
     int is_ref = ISREF, tf = TF;      /* concrete per query: with symbolic selectors every sample read is a two-way choice feeding a 64-bit multiplier */
@@ -62,18 +72,21 @@ void harness(void) {
     uint64_t want[3] = {0, 0, 0};
     for (int y = 0; y < VH; y++) for (int x = 0; x < VW; x++) {
         int a = src->buffer_y[(in->origin_y + y) * in->stride_y + in->origin_x + x], b = rec->buffer_y[(rec->origin_y + y) * rec->stride_y + rec->origin_x + x];
-        want[0] += (uint64_t)(((int64_t)a - b) * ((int64_t)a - b)); }
+        want[0] += (uint64_t)sq_model((int64_t)a - b); }
     for (int y = 0; y < VH / 2; y++) for (int x = 0; x < VW / 2; x++) {
         int a = src->buffer_cb[(in->origin_y / 2 + y) * in->stride_cb + in->origin_x / 2 + x], b = rec->buffer_cb[(rec->origin_y / 2 + y) * rec->stride_cb + rec->origin_x / 2 + x];
-        want[1] += (uint64_t)(((int64_t)a - b) * ((int64_t)a - b));
+        want[1] += (uint64_t)sq_model((int64_t)a - b);
         a = src->buffer_cr[(in->origin_y / 2 + y) * in->stride_cr + in->origin_x / 2 + x]; b = rec->buffer_cr[(rec->origin_y / 2 + y) * rec->stride_cr + rec->origin_x / 2 + x];
-        want[2] += (uint64_t)(((int64_t)a - b) * ((int64_t)a - b)); }
+        want[2] += (uint64_t)sq_model((int64_t)a - b); }
     psnr_calculations(pcs, scs, EB_FALSE);
     V_ASSERT(ppcs->luma_sse == (uint32_t)want[0], "luma SSE equals the sum of squared differences over the visible luma samples");
     V_ASSERT(ppcs->cb_sse == (uint32_t)want[1], "Cb SSE equals the sum of squared differences over the visible Cb samples");
     V_ASSERT(ppcs->cr_sse == (uint32_t)want[2], "Cr SSE equals the sum of squared differences over the visible Cr samples");
     V_END();
 }
+#ifdef CHECK_SQR_MACRO
+void sqr_macro(void) { int64_t d = (int64_t)vin_range(-255, 255); V_ASSERT(SQR(d) == d * d, "SQR(x) is x*x"); V_END(); }
+#endif
 #ifndef VERIF_CBMC
-int main(void) { harness(); puts("REPLAY-OK"); return 0; }
+int main(void) { V_ENTRY(); puts("REPLAY-OK"); return 0; }
 #endif
